@@ -13,13 +13,22 @@
 (*                            (n-1) * interval also for month/year units   *)
 (*   StrictBounds             _get_is_in_bounds with < instead of <=       *)
 (*   FirstAfterIgnoresEnd     the pre-b44cc4b get_first_after              *)
+(*                                                                         *)
+(* Beyond the listed properties: the optional min_point / max_point window *)
+(* (inp.w) is part of _get_is_in_bounds exactly as in the code, so the     *)
+(* iterator STOPS at the first point outside the window (it does not skip  *)
+(* it): a window that opens after the start yields nothing.  WindowPrefix  *)
+(* states that behaviour; WindowFilter is the reading the docstring        *)
+(* suggests ("a subset of valid date-times") and is shown NOT to hold by   *)
+(* MC_Win_filter.cfg - a named deviation, not one of the twenty properties.*)
 (***************************************************************************)
 EXTENDS Ops, Sequences
 
 CONSTANTS MultipliedEndForNominal, StrictBounds, FirstAfterIgnoresEnd, MaxTake,
           ShiftMovesStoredPoints     \* C14 knob: __add__ shifts the stored (derived) points instead of rebuilding from the anchor
 
-VARIABLES m, inp,   \* mode; the arguments: [fmt, n (0 = none), a (anchor), s (second point), d (interval)]
+VARIABLES m, inp,   \* mode; the arguments: [fmt, n (0 = none), a (anchor), s (second point), d (interval),
+                    \*   w (window: [hasMin, min, hasMax, max], the min_point / max_point keywords)]
           r,        \* the constructed object: [n, hasStart, start, hasEnd, end, hasDur, dur]
           pc,       \* "new" | "iter" | "stopped" | "abandoned"
           cur,      \* the iterator's current point (valid while pc = "iter")
@@ -63,8 +72,12 @@ Construct ==
   /\ UNCHANGED <<m, inp, out, sh, out1>>
 
 Leq(x, y) == IF StrictBounds THEN Lt3(x, y) ELSE Le3(x, y)
-InBounds(p) == /\ (r.hasStart => Leq(Inst(m, r.start), Inst(m, p)))
-               /\ (r.hasEnd => Leq(Inst(m, p), Inst(m, r.end)))
+NoWin == [hasMin |-> FALSE, min |-> NoP, hasMax |-> FALSE, max |-> NoP]
+InWin(p) == /\ (inp.w.hasMin => Leq(Inst(m, inp.w.min), Inst(m, p)))
+            /\ (inp.w.hasMax => Leq(Inst(m, p), Inst(m, inp.w.max)))
+InBase(p) == /\ (r.hasStart => Leq(Inst(m, r.start), Inst(m, p)))
+             /\ (r.hasEnd => Leq(Inst(m, p), Inst(m, r.end)))
+InBounds(p) == InBase(p) /\ InWin(p)
 
 \* one step of __iter__: yield the current point if it is in bounds and move on, else stop
 IterStep ==
@@ -109,6 +122,22 @@ NoEarlyStop == pc = "stopped" => (inp.n > 0 \/ r.n = 1)
 FirstIsAnchor == Len(out) >= 1 /\ (inp.fmt # 4 \/ inp.n = 0 \/ r.n = 1) => SameTP(out[1], inp.a)
 \* termination: the iterator stops or is abandoned within MaxTake + n + 2 steps (checked as a bound on Len(out))
 Bounded == Len(out) <= (IF inp.n > 0 THEN inp.n ELSE MaxTake)
+
+\* ---- windows (min_point / max_point; beyond the listed properties) -------------------------------------------
+\* the series the recurrence would yield without its window, as far as the model looks (MaxTake when unbounded)
+BaseLen == IF r.n > 0 THEN r.n ELSE MaxTake
+BaseAt(i) == IF r.n = 1 \/ ~r.hasDur THEN (IF r.hasStart THEN r.start ELSE r.end)
+             ELSE IF r.hasStart THEN Repeated(r.start, r.dur, i - 1) ELSE Repeated(r.end, DurNeg(r.dur), i - 1)
+WindowSound == \A i \in 1..Len(out) : InWin(out[i])
+\* as the code does: the yielded points are the longest leading run of the unwindowed series inside the window
+WindowPrefix ==
+  pc \in {"stopped", "abandoned"} =>
+    /\ \A i \in 1..Len(out) : SameTP(out[i], BaseAt(i))
+    /\ (pc = "stopped" /\ Len(out) < BaseLen /\ ~(r.n = 1 \/ ~r.hasDur)) => ~(InWin(BaseAt(Len(out) + 1)) /\ InBase(BaseAt(Len(out) + 1)))
+\* the docstring's reading: every unwindowed member inside the window is yielded (does NOT hold: see MC_Win_filter.cfg)
+WindowFilter ==
+  (pc = "stopped" /\ r.n > 0) =>
+    \A i \in 1..BaseLen : (InWin(BaseAt(i)) /\ InBase(BaseAt(i))) => \E j \in 1..Len(out) : SameTP(out[j], BaseAt(i))
 
 \* ---- C14: after a shift by an exact duration the series is the old one moved by exactly that duration -------------
 ShiftedBy(d) ==
